@@ -18,14 +18,14 @@ use std::process::{Command, Stdio};
 pub fn meta() -> Meta {
     Meta {
         id: "C17",
-        rule: "key scripts for the real Tui (headless driver): all scripts up to length 3 over a 24-key alphabet (13 824, exhaustive), seeded random scripts up to 200 keys (ASCII, multi-byte and wide characters, Enter, Tab, BackTab, arrows, Home/End, Backspace/Delete, control chords, command lines from the documented grammar, must-reject lines, hostile lines, `load` of fixture files; a tenth of them submit 1-5 lines and then walk the whole history up and down past both ends) at random terminal sizes with resizes, and a sweep of every terminal size 1x1..250x100 with a fixed script set. After every key: no panic in event handling or drawing, cursor <= text length, text/cursor/history equal to the editor model for plain editing keys, machine dump equal to the shadow machine, notification exactly for rejected lines. distinct_nontrivial counts distinct (key class, command class, size class, notification shown, auto-run, step mode) step classes",
+        rule: "key scripts for the real Tui (headless driver): all scripts up to length 3 over a 24-key alphabet (13 824, exhaustive), seeded random scripts up to 200 keys (ASCII, multi-byte and wide characters, Enter, Tab, BackTab, arrows, Home/End, Backspace/Delete, control chords, command lines from the documented grammar, must-reject lines, hostile lines, `load` of fixture files; a tenth of them submit 1-5 lines and then walk the whole history up and down past both ends) at random terminal sizes with resizes, and a sweep of every terminal size 1x1..250x100 with a fixed script set; for terminal widths from 76 (every fourth in the quick tier) lines of exactly the input field's width, one less, one and three more are typed and the cursor is walked over all of them; two lines of more than 1024 characters are edited at both ends; `next N` also with N beyond 65 535. After every key: no panic in event handling or drawing, cursor <= text length, text/cursor/history equal to the editor model for plain editing keys, machine dump equal to the shadow machine, notification exactly for rejected lines. distinct_nontrivial counts distinct (key class, command class, size class, notification shown, auto-run, step mode) step classes",
         exhaustive: false,
         assumptions: vec![
             "the terminal backend (crossterm raw mode, real tty) is bypassed; the auto-run timing loop is replaced by 10 cycles per frame",
             "lines consisting of a documented command followed by other text, non-canonical numbers, blanks around a command and `exit` are left open; Tab/BackTab/Up/Down results are only checked for cursor <= length and then adopted",
             "`next N` is generated with N <= 2000; a fuel watchdog firing in the driver is inconclusive, not a violation",
         ],
-        floors: vec![("steps_checked", 150_000), ("scripts", 15_000), ("sizes_rendered", 25_000), ("commands_accepted_and_compared", 3_000), ("commands_must_reject", 2_000), ("loads_ok", 100), ("multibyte_keys", 5_000), ("tab_keys", 3_000), ("small_terminal_steps", 5_000), ("history_walk_scripts", 500)],
+        floors: vec![("steps_checked", 150_000), ("scripts", 15_000), ("sizes_rendered", 25_000), ("commands_accepted_and_compared", 3_000), ("commands_must_reject", 2_000), ("loads_ok", 100), ("multibyte_keys", 5_000), ("tab_keys", 3_000), ("small_terminal_steps", 5_000), ("history_walk_scripts", 500), ("cursor_walks_over_long_lines", 30), ("lines_beyond_1024_characters", 2)],
     }
 }
 
@@ -340,7 +340,7 @@ fn run_batch(ctx: &Ctx, scripts: &[Script], tag: &str, rep: &mut Report) {
     let dir = ctx.work.join("c17");
     let _ = std::fs::create_dir_all(&dir);
     let path = dir.join(format!("s-{}.script", tag));
-    let mut text = String::from("FUEL 400000\n");
+    let mut text = String::from("FUEL 6000000\n");
     for s in scripts {
         text.push_str(&format!("SCRIPT {} {} {}\n", s.id, s.width, s.height));
         for k in &s.keys {
@@ -446,7 +446,7 @@ fn run_batch(ctx: &Ctx, scripts: &[Script], tag: &str, rep: &mut Report) {
             }
             let had_notif = sh.notif;
             let judge = {
-                verif::set_fuel(Some(2_000_000));
+                verif::set_fuel(Some(6_000_000));
                 let j = model_key(&mut sh, k, rep);
                 verif::set_fuel(None);
                 j
@@ -473,7 +473,7 @@ fn run_batch(ctx: &Ctx, scripts: &[Script], tag: &str, rep: &mut Report) {
                     if st.notif.is_some() {
                         sh.notif = true;
                     } else {
-                        verif::set_fuel(Some(2_000_000));
+                        verif::set_fuel(Some(6_000_000));
                         let r = apply_effect(&mut sh, &e, rep);
                         verif::set_fuel(None);
                         if let Err((sig, what)) = r {
@@ -487,7 +487,7 @@ fn run_batch(ctx: &Ctx, scripts: &[Script], tag: &str, rep: &mut Report) {
             };
             // auto-run: the session clocks the machine 10 times per frame, after the key was handled
             if sh.auto && !sh.quit {
-                verif::set_fuel(Some(2_000_000));
+                verif::set_fuel(Some(6_000_000));
                 for _ in 0..10 {
                     sh.m.trigger_key_clock();
                 }
@@ -632,7 +632,15 @@ fn session_script(rng: &mut Rng, id: String, fix: &[String]) -> Script {
             6 | 7 => keys.push(Key::Ctrl('a')),
             8 => keys.push(Key::Ctrl('e')),
             9 => keys.push(Key::Ctrl(*rng.pick(&['r', 'l']))),
-            10 | 11 => type_line(&mut keys, &format!("next {}", rng.below(40))),
+            10 => type_line(&mut keys, &format!("next {}", rng.below(40))),
+            11 => {
+                if rng.chance(1, 6) {
+                    // counts beyond 16 bits
+                    type_line(&mut keys, &format!("next {}", 65_530 + rng.below(600)));
+                } else {
+                    type_line(&mut keys, &format!("next {}", rng.below(40)));
+                }
+            }
             12 => type_line(&mut keys, &format!("FC = {}", rng.u8())),
             13 => type_line(&mut keys, "show memory"),
             14 => {
@@ -790,6 +798,7 @@ pub fn run(ctx: &Ctx) -> Report {
     let fix = fixtures(ctx);
     // items: 24 exhaustive batches (first key), size-sweep batches (250 widths), random batches
     let rand_batches = (random_scripts + 49) / 50;
+    let stride = ctx.size(4, 1);
     let total = 24 + 250 + rand_batches;
     par_items(ctx.threads, total, ctx.seed, |i, seed, rep| {
         let mut rng = Rng::new(seed);
@@ -825,6 +834,24 @@ pub fn run(ctx: &Ctx) -> Report {
                 scripts.push(Script { id: format!("z{}x{}", w, h), width: w, height: h, keys });
             }
             rep.count("sizes_rendered", 100);
+            // a line a little longer than (and exactly as long as) the input field, and the cursor
+            // walked over all of it: every relation between text length, cursor and field width
+            if w >= 76 && (w as u64 + ctx.seed) % stride == 0 {
+                let field = (w - 37) as usize;
+                for (n, len) in [field + 3, field, field + 1, field.saturating_sub(1)].iter().enumerate() {
+                    let mut keys: Vec<Key> = (0..*len).map(|k| Key::Char(if k % 7 == 3 { 'ä' } else { 'b' })).collect();
+                    for _ in 0..*len {
+                        keys.push(Key::Left);
+                    }
+                    for _ in 0..6 {
+                        keys.push(Key::Right);
+                    }
+                    keys.push(Key::End);
+                    keys.push(Key::Home);
+                    scripts.push(Script { id: format!("c{}_{}", w, n), width: w, height: 28 + (w % 5), keys });
+                }
+                rep.inc("cursor_walks_over_long_lines");
+            }
             run_batch(ctx, &scripts, &format!("z{}", w), rep);
             return;
         }
@@ -840,6 +867,14 @@ pub fn run(ctx: &Ctx) -> Report {
                 }
             })
             .collect();
+        let mut scripts = scripts;
+        if i == 24 + 250 || i == 24 + 250 + 7 {
+            // very long lines (beyond 1024 characters), then editing at the end, in the middle and at the start
+            let mut keys: Vec<Key> = (0..(1030 + rng.usize(40))).map(|k| Key::Char(if i != 24 + 250 && k % 9 == 0 { '日' } else { 'a' })).collect();
+            keys.extend([Key::Backspace, Key::Backspace, Key::Left, Key::Left, Key::Delete, Key::Char('x'), Key::Home, Key::Delete, Key::Char('y'), Key::End, Key::Backspace, Key::Enter]);
+            scripts.push(Script { id: format!("long{}", i), width: 120, height: 40, keys });
+            rep.inc("lines_beyond_1024_characters");
+        }
         if i == 24 + 250 {
             rep.sample(obj![("kind", "random script"), ("width", scripts[0].width), ("height", scripts[0].height), ("keys", J::Arr(scripts[0].keys.iter().take(40).map(|k| k.to_json()).collect()))]);
         }
